@@ -525,6 +525,13 @@ Definition ob_no_shared_pointee_writes : bool :=
    One logger is handed to every connection of a Client and called under the per-connection mutex only. *)
 Definition ob_loggers_stateless : bool := match log_method_writes with [] => true | _ => false end.
 
+(* package-level state of packages mail / smtp / log: every assignment to a package-level variable in a function body
+   other than init() is inside a sync.Once.Do literal or after a Lock() in the same function (atomics are calls,
+   not assignments); state shared by ALL Clients and goroutines of the process has no other protection *)
+Definition ob_no_unsync_package_state : bool :=
+  forallb (fun w : lname * lname * lname => match w with (_, _, cls) => name_is "once" cls || name_is "locked" cls end)
+          package_var_writes.
+
 (* model level: objects guarded by m, used by the exclusivity theorem *)
 Definition guarded_by (prot : obj -> protection) (m : N) (e : event) : bool :=
   match access e with
